@@ -94,6 +94,15 @@ def e1_configs(tier):
     else:
         cfgs.append(stages.WalkTwice(kind="filtered", depth=2, W=2, accepted=four, first_depth=1, first_accepted=[(1, 0, 0)], with_pause=True, max_deviations=6))
         cfgs.append(stages.WalkTwice(kind="filtered", depth=2, W=2, accepted=four, first_depth=1, first_accepted=[(1, 0, 0)], with_pause=True))
+    # deep pyramids (toasty's "big pyramid" code paths start at depth 9/10), restricted to an apex just above
+    # the leaves so that the walk stays small
+    for d in (8, 9, 10, 11):
+        cfgs.append(W(kind="generic", depth=d, W=2, apex=(d - 1, 2 ** (d - 2) + 1, 3)))
+    cfgs.append(W(kind="toast", depth=9, W=2, apex=(8, 5, 9)))
+    cfgs.append(W(kind="toast", depth=10, W=2, apex=(9, 500, 9), coordsys="planetary"))
+    if tier == "thorough":
+        cfgs.append(W(kind="generic", depth=9, W=2, apex=(7, 5, 9)))
+        cfgs.append(W(kind="generic", depth=10, W=2, apex=(8, 5, 9), max_deviations=4))
     if tier == "quick":
         # the complete depth-2 pyramid (21 callbacks; 47 000 states unbounded, thorough tier) within a deviation bound
         cfgs.append(W(kind="generic", depth=2, W=2, with_pause=True, max_deviations=3))
